@@ -14,14 +14,14 @@ RULE = ('A registry of public routines (distance / distance_fast, warping_paths(
         'both engines, ub_euclidean, ed.distance(_fast), serial distance matrices both engines, dtw_ndim.*, dba / dba_loop '
         'both engines, subsequence_alignment, subsequence_search, Hierarchical.fit, KMeans.fit seeded) x a container '
         'representation drawn independently per series argument: list, tuple, array.array, C-contiguous ndarray, strided '
-        'view, reversed view, float32/int arrays are NOT generated (the API asks for doubles); collections as list of '
+        'view, reversed view, integer-valued data also as Python ints / int64 arrays (Python engine) and as lists of int64 / float32 arrays or integer array.array (C collection routines, which take a list of buffers); collections as list of '
         'arrays, 2-D / 3-D array, F-ordered or strided 2-D view, SeriesContainer. Oracles: (1) a deep snapshot of every '
         'input (bytes of the owning buffer, strides, list contents) is identical after the call; (2) the result equals '
         'the result on canonical inputs (fresh C-contiguous float64 copies; lists for the Python engine); (3) a second '
         'call returns the identical result; (4) history leg: a pool of shared series, settings dicts and model objects, '
         'generated call sequences; every result must equal the result obtained with fresh copies of the original '
         'objects; (5) NumPy-free child for routines that do not need NumPy. Non-trivial: an argument is in a '
-        'non-canonical representation, or the call is a repeat / shares objects with an earlier call.')
+        'non-canonical representation, or the call is a repeat / shares objects with an earlier call. Leg average-layout: the initial average of dba / dba_loop (both engines) as strided / reversed / Fortran / transposed view, array.array or list: same result as for a contiguous float64 array, average untouched.')
 ASSUMPTIONS = ['series are float64; values |x| <= 1e3; lengths <= 8', 'K-means / random choices are seeded inside the case']
 
 
@@ -34,7 +34,7 @@ COLL_C = ['list-ndarray', 'list-strided', '2d', '2d-F', '2d-strided', 'container
 COLL_PY = ['list-list', 'list-ndarray', 'list-strided', '2d', '2d-F', '2d-strided', 'container', 'list-array']
 
 
-INT_KINDS = ('int-list', 'int-ndarray', 'list-intlist', 'list-intarray', '2d-int')
+INT_KINDS = ('int-list', 'int-ndarray', 'list-intlist', 'list-intarray', '2d-int', 'list-f32array', 'list-intarr')
 
 
 def make_series(vals, kind, nd=1):
@@ -78,6 +78,10 @@ def make_coll(S, kind, nd=1):
         return [np.array([int(x) for x in s], dtype=np.int64) for s in S]
     if kind == '2d-int':
         return np.array([[int(x) for x in s] for s in S], dtype=np.int64)
+    if kind == 'list-f32array':      # integer-valued data: exactly representable in float32
+        return [np.array([int(x) for x in s], dtype=np.float32) for s in S]
+    if kind == 'list-intarr':        # array.array with an integer typecode
+        return [array.array('l', [int(x) for x in s]) for s in S]
     if kind == 'list-ndarray':
         return [np.array(s, dtype=np.double) for s in S]
     if kind == 'list-strided':
@@ -295,6 +299,11 @@ def _case_call(draw):
         if integer and not c:
             case['series'] = [[float(round(x)) for x in s] for s in case['series']]
             kinds = kinds + ['list-intlist', 'list-intarray', '2d-int', 'list-intlist']
+        if integer and name in ('dtw.distance_matrix_fast', 'dtw.distance_matrix(use_c,compact)', 'dba_loop(use_c)'):
+            # the C collection routines accept a list of buffers: the element type of a buffer is a representation,
+            # not content (a 2-D integer array is rejected with a dtype error, which is a clean rejection: not generated)
+            case['series'] = [[float(round(x)) for x in s] for s in case['series']]
+            kinds = kinds + ['list-intarray', 'list-f32array', 'list-intarr']
         if len({len(s) for s in case['series']}) != 1:
             kinds = [k for k in kinds if not k.startswith('2d')]
         case['cont'] = draw(st.sampled_from(kinds))
@@ -518,9 +527,64 @@ def run_hist(case):
     return res
 
 
+# ------------------------------------------------------------------------------------------------------
+# the initial average of dba / dba_loop is an input series like any other
+# ------------------------------------------------------------------------------------------------------
+@st.composite
+def _case_avg(draw):
+    nd = draw(st.sampled_from([1, 1, 2]))
+    n = draw(st.integers(2, 5))
+    L = draw(st.integers(2, 6))
+    regime = draw(st.sampled_from(['L', 'F']))
+    kinds = ['strided', 'reversed', 'ndarray'] + (['array', 'list'] if nd == 1 else ['F', 'Tview'])
+    return {'series': [draw(gen.series(L, L, regime, nd)) for _ in range(n)], 'c': draw(gen.series(2, 6, regime, nd)),
+            'nd': nd, 'ckind': draw(st.sampled_from(kinds)), 'use_c': draw(st.booleans()),
+            'routine': draw(st.sampled_from(['dba', 'dba_loop'])), 'matrix': draw(st.booleans())}
+
+
+def run_avg(case):
+    import numpy as np
+    from dtaidistance import dtw_barycenter
+    res = Res()
+    nd = case['nd']
+    res.cls('ckind=' + case['ckind'], 'use_c' if case['use_c'] else 'python', case['routine'], 'nd=%d' % nd)
+    S = np.array(case['series'], dtype=np.double)
+    if not case['matrix']:
+        S = [np.array(s, dtype=np.double) for s in case['series']]
+    if case['use_c'] and (case['ckind'] == 'list' or (case['ckind'] == 'array' and case['routine'] == 'dba')):
+        case = dict(case, ckind='strided')      # the C routines take buffers (dba_loop also array.array): lists are rejected
+    c = make_series(case['c'], case['ckind'], nd)
+    canon = np.array(case['c'], dtype=np.double)
+
+    def call(avg):
+        if case['routine'] == 'dba':
+            return dtw_barycenter.dba(S, avg, use_c=case['use_c'])
+        return dtw_barycenter.dba_loop(S, c=avg, max_it=2, thr=0.0, use_c=case['use_c'])
+    exp, exc0 = libcall(call, canon)
+    if exc0:
+        res.count('canonical_call_raised')
+        return res
+    snap = snapshot(c)
+    got, exc = libcall(call, c)
+    tag = '%s(%s)' % (case['routine'], 'use_c' if case['use_c'] else 'py')
+    if exc:
+        res.fail('average-rejected:%s:%s' % (tag, exc), 'raised for an initial average given as %s' % case['ckind'])
+        return res
+    if snapshot(c) != snap:
+        res.fail('average-modified:' + tag, 'the initial average (%s) was modified' % case['ckind'])
+    g = np.asarray(got, dtype=float)
+    e = np.asarray(exp, dtype=float)
+    if g.shape != e.shape or not all(ref.close(float(x), float(y)) for x, y in zip(g.ravel(), e.ravel())):
+        res.fail('average-layout:' + tag, 'initial average given as %s: %r, as a contiguous float64 array: %r'
+                 % (case['ckind'], g.tolist(), e.tolist()))
+    res.nontrivial = case['ckind'] != 'ndarray'
+    return res
+
+
 def legs(tier):
     return [Leg('call', _case_call(), run_call, 10000, 100000, max_shrink_buckets=10),
-            Leg('history', _case_hist(), run_hist, 2000, 16000, max_shrink_buckets=8)]
+            Leg('history', _case_hist(), run_hist, 2000, 16000, max_shrink_buckets=8),
+            Leg('average-layout', _case_avg(), run_avg, 1500, 12000, max_shrink_buckets=6)]
 
 
 REGIONS = {}
